@@ -320,10 +320,11 @@ def fam_lists(r, c):
             if r.random() < 0.95:
                 a.append(r.choice([b"0", b"1", b"2", b"-1", b"-2", b"10", b"x"]))
         return [a]
-    if x < 89:
+    if x < 97:
         return [[b"lmove", k(), k(), randcase(r, r.choice([b"left", b"right", b"up\r\n"])), randcase(r, r.choice([b"left", b"right"]))]]
     # BLPOP/BRPOP only right after a push on its first key: the reply carries the key name, and
-    # the command returns at once (a wrong-typed key answers WRONGTYPE at once as well)
+    # the command returns at its first poll (100 ms of real time, hence rare); a wrong-typed key
+    # answers WRONGTYPE at the first poll as well
     key = k()
     return [[b"rpush", key, e(), e()], [r.choice([b"blpop", b"brpop"]), key] + ([k()] if r.random() < 0.3 else []) + [b"1"]]
 
@@ -342,8 +343,9 @@ def fam_protocol(r, c):
         return [[name] + [c.val(r) for _ in range(r.randrange(0, 4))]]
     if x < 4:
         return [[]]
+    # every argument stays inside this program's key namespace: any position may be a key
     name = randcase(r, r.choice(KNOWN))
-    return [[name] + [r.choice([c.key(r), c.val(r)]) for _ in range(r.randrange(0, 6))]]
+    return [[name] + [r.choice([c.key(r), c.pfx + c.val(r)]) for _ in range(r.randrange(0, 6))]]
 
 
 # name -> (weight, generator).  The integrator widens the check by adding entries here once the
